@@ -64,10 +64,12 @@ Fixpoint pool_trace (fused_amt committed uncommitted : Z) (cs : list cand) : lis
     end
   end.
 
-(* ---- base cost of a user block: vm.GetBasePlasmaForAccountBlock. The cost of every embedded method is dumped
-   from the real method tables on every run (Consts.MethodPlasmaKeys / MethodPlasmaVals; key = contract address ‖
-   selector as one big-endian number). [found]: did embedded.GetEmbeddedMethod find the method under the spork
-   regime of the acknowledged momentum (observed input). *)
+(* ---- base cost of a user block: vm.GetBasePlasmaForAccountBlock. The cost of every embedded method of EVERY method
+   table (origin, accelerator, bridge-and-liquidity, htlc) is dumped from the real tables on every run
+   (Consts.MethodPlasmaKeys / MethodPlasmaVals; key = (table index + 1) ‖ contract address ‖ selector as one
+   big-endian number: the same method may cost differently under different sporks). [found]: did
+   embedded.GetEmbeddedMethod find the method under the spork regime of the acknowledged momentum; which table that
+   regime selects is part of [key] (both observed inputs). *)
 Fixpoint assoc_z (k : Z) (ks vs : list Z) : option Z :=
   match ks, vs with
   | k' :: ks', v :: vs' => if k =? k' then Some v else assoc_z k ks' vs'
